@@ -277,6 +277,7 @@ def classify(cfg, code):
 def write_replay(pid, tag, payload):
     d = os.path.join(VERIF, "replays", pid)
     os.makedirs(d, exist_ok=True)
+    tag = re.sub(r"[^A-Za-z0-9_.=-]", "_", tag)[:120]
     p = os.path.join(d, tag + ".json")
     with open(p, "w") as f:
         json.dump(payload, f, indent=1, default=str)
